@@ -306,10 +306,8 @@ def cases(draw):
         case["coeffs2"] = enc(draw(polys(max_len=15)))
         case["scalar"] = draw(st.integers(0, 5)) == 0
         case["x"] = str(draw(xs))
-        if sub == "poly.add" and case["reverse"] and len(case["coeffs"]) != len(case["coeffs2"]):
-            # reversed lists of unequal length: the docstring gives no alignment rule; keep equal lengths
-            n = min(len(case["coeffs"]), len(case["coeffs2"]))
-            case["coeffs"], case["coeffs2"] = case["coeffs"][:n], case["coeffs2"][:n]
+        # reversed (highest power first) lists of unequal length are kept: the documented result is the coefficient list
+        # of polynomial(P, x) + polynomial(Q, x), i.e. the lists are aligned at the constant term
     elif sub == "poly.derivative":
         case["coeffs"] = enc(draw(polys(max_len=15)))
         case["n"] = draw(st.integers(0, 3))
